@@ -46,6 +46,10 @@ pub enum Rest {
     MetricIn(Vec<u8>),
     ZoneEq(u8),
     ValueGt(i8),
+    /// value_f64 <op> literal with op in {=, <>, <, <=, >, >=}, or the literal written first
+    ValueCmp { op: u8, v: i8, rev: bool },
+    /// host <op> 'literal' with an ordering operator, or the literal written first
+    HostCmp { op: u8, h: u8, rev: bool },
     And(Box<Rest>, Box<Rest>),
     Or(Box<Rest>, Box<Rest>),
     Not(Box<Rest>),
@@ -124,6 +128,7 @@ pub struct Flags {
     pub not_window: bool,
     pub or_window: bool,
     pub in_list: bool,
+    pub value_cmp: bool,
     pub and_window: bool,
     pub eq_in_or: bool,
     pub eq: bool,
@@ -205,6 +210,29 @@ fn rest_sql(c: &Ctx, r: &Rest, f: &mut Flags) -> Option<String> {
             }
         }
         Rest::ValueGt(v) => format!("value_f64 > {}", *v as f64 / 4.0),
+        Rest::ValueCmp { op, v, rev } => {
+            const OPS: [&str; 6] = ["=", "<>", "<", "<=", ">", ">="];
+            // the same comparison with the operands exchanged
+            const SWAPPED: [&str; 6] = ["=", "<>", ">", ">=", "<", "<="];
+            f.value_cmp = true;
+            if *rev {
+                f.rev = true;
+                format!("{} {} value_f64", *v as f64 / 4.0, SWAPPED[*op as usize % 6])
+            } else {
+                format!("value_f64 {} {}", OPS[*op as usize % 6], *v as f64 / 4.0)
+            }
+        }
+        Rest::HostCmp { op, h, rev } => {
+            const OPS: [&str; 4] = ["<", "<=", ">", ">="];
+            const SWAPPED: [&str; 4] = [">", ">=", "<", "<="];
+            f.value_cmp = true;
+            if *rev {
+                f.rev = true;
+                format!("'{}' {} host", HOSTS[*h as usize % 4], SWAPPED[*op as usize % 4])
+            } else {
+                format!("host {} '{}'", OPS[*op as usize % 4], HOSTS[*h as usize % 4])
+            }
+        }
         Rest::And(a, b) => match (rest_sql(c, a, f), rest_sql(c, b, f)) {
             (Some(x), Some(y)) => format!("({} AND {})", x, y),
             (Some(x), None) | (None, Some(x)) => x,
@@ -405,6 +433,7 @@ pub fn exec(case: &Case) -> Outcome {
                 (flags.not_window, "q:not-window"),
                 (flags.or_window, "q:or-window"),
                 (flags.in_list, "q:timestamp-in-list-or-equality-chain"),
+                (flags.value_cmp, "q:value-or-label-comparison-any-operator"),
                 (flags.and_window, "q:and-of-windows"),
                 (flags.eq, "q:eq"),
                 (flags.rev, "q:reversed-operands"),
@@ -617,6 +646,8 @@ fn rest() -> impl Strategy<Value = Rest> {
         1 => prop::collection::vec(0u8..3, 1..3).prop_map(Rest::MetricIn),
         1 => (0u8..3).prop_map(Rest::ZoneEq),
         1 => (-20i8..20).prop_map(Rest::ValueGt),
+        3 => (0u8..6, -20i8..20, prop::bool::weighted(0.4)).prop_map(|(op, v, rev)| Rest::ValueCmp { op, v, rev }),
+        1 => (0u8..4, 0u8..4, prop::bool::weighted(0.4)).prop_map(|(op, h, rev)| Rest::HostCmp { op, h, rev }),
     ];
     leaf.prop_recursive(2, 6, 2, |inner| {
         prop_oneof![
